@@ -67,11 +67,13 @@ static address_waiter& get_address_waiter(void* address) {
 }
 
 void wait_on_address(void* address, d1::delegate_base& predicate, std::uintptr_t context) {
+    __TBB_VERIF_POINT(vp_addr_wait, address, 0);
     address_waiter& waiter = get_address_waiter(address);
     waiter.wait<address_waiter::thread_context>(predicate, address_context{address, context});
 }
 
 void notify_by_address(void* address, std::uintptr_t target_context) {
+    __TBB_VERIF_POINT(vp_addr_notify, address, 1);
     address_waiter& waiter = get_address_waiter(address);
 
     auto predicate = [address, target_context] (address_context ctx) {
@@ -82,6 +84,7 @@ void notify_by_address(void* address, std::uintptr_t target_context) {
 }
 
 void notify_by_address_one(void* address) {
+    __TBB_VERIF_POINT(vp_addr_notify, address, 2);
     address_waiter& waiter = get_address_waiter(address);
 
     auto predicate = [address] (address_context ctx) {
@@ -92,6 +95,7 @@ void notify_by_address_one(void* address) {
 }
 
 void notify_by_address_all(void* address) {
+    __TBB_VERIF_POINT(vp_addr_notify, address, 3);
     address_waiter& waiter = get_address_waiter(address);
 
     auto predicate = [address] (address_context ctx) {
